@@ -16,6 +16,17 @@ use std::collections::BTreeMap;
 pub const RULE: &str = "case = direction W (crate writes): (schema, values, codec, level, approx_block_size, op list, user metadata map of 0-4 entries with arbitrary byte values) judged by the reference parser - magic, avro.schema = schema.json() byte-exact, avro.codec = codec name, user metadata preserved, the configured 16-byte sync marker after every block, count/size consistent, data decoding after reference decompression to the written values - and read by apache-avro 0.17 on the sub-domain it supports; or direction R (crate reads): a file written by the reference writer (any partition of the values into blocks, metadata in any order and any block layout of the metadata map incl. negative counts, extra keys, avro.codec absent for the null codec, every codec) or by apache-avro, read by the crate from a slice and a chunked reader, user metadata extracted; \
 non-trivial = codec != null, or >=2 blocks, or non-empty user metadata, or reference-written with reordered/extra metadata or omitted avro.codec; distinct = hash of (direction, schema JSON, file bytes)";
 
+struct OnlyWrite(Vec<u8>);
+impl std::io::Write for OnlyWrite {
+	fn write(&mut self, b: &[u8]) -> std::io::Result<usize> {
+		self.0.extend_from_slice(b);
+		Ok(b.len())
+	}
+	fn flush(&mut self) -> std::io::Result<()> {
+		Ok(())
+	}
+}
+
 pub fn run(tape: &[u8], ctx: &mut Ctx) {
 	let mut t = Tape::new(tape);
 	// (failing values and buffer-boundary sized blocks are included: the layout of what reaches the
@@ -34,7 +45,9 @@ pub fn run(tape: &[u8], ctx: &mut Ctx) {
 		sc.allow_slow_sequence_to_bytes();
 		let mut accepted = Vec::new();
 		let bytes = {
-			let mut w = match build_writer(&mut sc, &h, Vec::new()) {
+			// (a sink that only implements `write`: std's default write_vectored then hands over one
+			// buffer per call, as files behind wrappers and most custom writers do)
+			let mut w = match build_writer(&mut sc, &h, OnlyWrite(Vec::new())) {
 				Ok(w) => w,
 				Err(e) => {
 					ctx.violation("C06/writer-build-failed", format!("{outline} user metadata {:?}: {e}", h.user_meta));
@@ -49,7 +62,7 @@ pub fn run(tape: &[u8], ctx: &mut Ctx) {
 				}
 			}
 			match w.into_inner() {
-				Ok(b) => b,
+				Ok(b) => b.0,
 				Err(e) => {
 					ctx.violation("C06/write-failed", format!("schema {} {outline}: {e}", h.case.json));
 					return;
@@ -185,8 +198,16 @@ pub fn run(tape: &[u8], ctx: &mut Ctx) {
 			let note = format!("metadata order {:?} partition {partition:?} negative {negative:?} codec {}", meta.iter().map(|m| m.0.clone()).collect::<Vec<_>>(), if omit_codec { "omitted" } else { h.codec.name() });
 			let mut out = ref_write_header(&meta, &MetaLayout { partition, negative }, &h.sync);
 			// any partition of the values into blocks
+			// (a block may also hold zero objects: legal, and other writers emit them, e.g. on a flush
+			// with nothing pending; the decision reuses the parity of the sync marker so that the
+			// tape is consumed as before)
+			let empty_blocks = h.sync[0] % 4 == 0;
 			let mut i = 0;
+			let mut nb = 0;
 			while i < seq.len() {
+				if empty_blocks && (h.sync[1] as usize + nb) % 2 == 0 {
+					ref_write_block(&mut out, h.codec, 0, &[], &h.sync);
+				}
 				let k = if t.bool() { seq.len() - i } else { 1 + t.below(seq.len() - i) };
 				let mut data = Vec::new();
 				for j in &seq[i..i + k] {
@@ -194,6 +215,13 @@ pub fn run(tape: &[u8], ctx: &mut Ctx) {
 				}
 				ref_write_block(&mut out, h.codec, k, &data, &h.sync);
 				i += k;
+				nb += 1;
+			}
+			if empty_blocks {
+				ctx.label("file:zero-object-blocks");
+				if h.sync[2] % 2 == 0 {
+					ref_write_block(&mut out, h.codec, 0, &[], &h.sync);
+				}
 			}
 			(out, note, h.user_meta.clone())
 		};
